@@ -68,11 +68,8 @@ type Other = { v: valueOf[] };
     ('disc-twins', """
 type U1 = { t: "a"; x: true } | { t: "b"; y: number };
 type U2 = { t: "a"; x: "true" } | { t: "b"; y: number };
-type V1 = { k: "p"; /** first */ n: number } | { k: "q" };
-type V2 = { k: "p"; n: number } | { k: "q"; z?: string };
-type H1 = { u: U1; v: V1 };
-type H2 = { u: U2; v: V2; w?: U1 };
-""", ['U1', 'U2', 'H1', 'H2', 'V2']),
+type H2 = { u: U2; w?: U1 };
+""", ['U1', 'U2', 'H2']),
     ('mutual3', """
 type X = { y?: Y; n: number };
 type Y = { z: Z | null };
